@@ -4,6 +4,7 @@ CFG (normal edges only), dominators, call/await events, def-use slicing,
 closure/upvar links, call graph with effect reachability, guard liveness.
 Nothing here looks at source text; line numbers are carried for reports only.
 """
+import os
 import re
 import sys
 from collections import defaultdict, deque
@@ -552,7 +553,12 @@ class Fn:
                             out.append(("create", cr_at[(b, i)]))
                         else:
                             out.append(("agg", data))
-                            for o in (rv["ops"] if agg_descend else ()):
+                            ops_ = rv["ops"] if agg_descend else ()
+                            # field-sensitive through tuples: `(t.1)` where `t = (a, b)` comes from b only
+                            if ops_ and a["t"] == "tuple" and proj is not None and proj.l == l and proj.p and isinstance(proj.p[0], dict) \
+                                    and "f" in proj.p[0] and proj.p[0]["f"] < len(ops_):
+                                ops_ = [ops_[proj.p[0]["f"]]]
+                            for o in ops_:
                                 ap = op_place(o)
                                 if ap is not None:
                                     work.append((ap.l, ap))
@@ -813,6 +819,9 @@ def _rvalue_locals(rv):
     return out
 
 
+INLINE_LOG = []     # one entry per Program in which helpers absent from the pinned tree were made transparent (lib/inline.py)
+
+
 class Program:
     def __init__(self, crates):
         self.crates = {}
@@ -844,6 +853,16 @@ class Program:
                 self.consts[k["path"]] = k
         self._callees = {}
         self._reach = {}
+        self.inlined = {}
+        self.inlined_into = {}
+        if os.environ.get("VERIF_NO_INLINE") != "1":
+            from . import inline as _inline
+            r_ = _inline.apply(self, Fn)
+            if r_.get("new_functions"):
+                INLINE_LOG.append({"crates": sorted(self.crates), "new_functions": r_["new_functions"][:40], "inlined_sites": r_["inlined_sites"],
+                                   "removed": r_["removed"][:40], "kept": r_["kept"]})
+            self._callees = {}
+            self._reach = {}
 
     # ------------------------------------------------------------ lookup
     def fn(self, path, body=True):
@@ -876,8 +895,15 @@ class Program:
 
     def outer_fn(self, f):
         """The named fn a closure (transitively) belongs to."""
-        while f.parent and f.parent in self.fns:
-            f = self.fns[f.parent]
+        seen = 0
+        while f.parent and seen < 64:
+            seen += 1
+            if f.parent in self.fns:
+                f = self.fns[f.parent]
+            elif f.parent in self.inlined_into and self.inlined_into[f.parent] in self.fns:
+                f = self.fns[self.inlined_into[f.parent]]      # the helper this closure was written in now lives in its caller
+            else:
+                break
         return f
 
     def closures_of(self, f, recursive=True):
